@@ -14,7 +14,7 @@ Theorem C04_congruence :
     Permutation (concat ct) (seq 0 (g_nel G)) -> Permutation (concat cr) (seq 0 (g_nel G)) ->
     wf_adj (g_nel G) (g_edge_adj G) -> wf_adj (g_nel G) (g_vertex_adj G) ->
     meq (dense ident G Lreg Lsing St Sr)
-        (congr (seq 0 (sp_ns St * g_nel G)) (seq 0 (sp_ns Sr * g_nel G))
+        (congr (seq 0 (sp_ns St * g_nel G)%nat) (seq 0 (sp_ns Sr * g_nel G)%nat)
                (scatter (tmat (g_nel G) St))
                (dense ident G Lreg Lsing (full_space (sp_ns St) ct) (full_space (sp_ns Sr) cr))
                (scatter (tmat (g_nel G) Sr))).
@@ -29,11 +29,11 @@ Theorem C04_segment_blocks :
     Permutation (concat ct) (seq 0 (g_nel G)) -> Permutation (concat cr) (seq 0 (g_nel G)) ->
     wf_adj (g_nel G) (g_edge_adj G) -> wf_adj (g_nel G) (g_vertex_adj G) ->
     selects (g_nel G) St -> selects (g_nel G) Sr ->
-    e < g_nel G -> sp_support St e = true -> i < sp_ns St ->
-    f < g_nel G -> sp_support Sr f = true -> j < sp_ns Sr ->
+    (e < g_nel G)%nat -> sp_support St e = true -> (i < sp_ns St)%nat ->
+    (f < g_nel G)%nat -> sp_support Sr f = true -> (j < sp_ns Sr)%nat ->
     req (dense ident G Lreg Lsing St Sr (sp_l2g St e i) (sp_l2g Sr f j))
         (dense ident G Lreg Lsing (full_space (sp_ns St) ct) (full_space (sp_ns Sr) cr)
-               (sp_ns St * e + i) (sp_ns Sr * f + j)).
+               (sp_ns St * e + i)%nat (sp_ns Sr * f + j)%nat).
 Proof. exact @segment_blocks. Qed.
 Print Assumptions C04_segment_blocks.
 
@@ -44,9 +44,9 @@ Theorem C04_test_trial_independent :
     wf_colors (g_nel G) St ->
     Permutation (concat ct) (seq 0 (g_nel G)) -> Permutation (concat cr) (seq 0 (g_nel G)) ->
     wf_adj (g_nel G) (g_edge_adj G) -> wf_adj (g_nel G) (g_vertex_adj G) ->
-    f < g_nel G -> j < nsr ->
-    req (dense ident G Lreg Lsing St (full_space nsr cr) r (nsr * f + j))
-        (mmul (seq 0 (sp_ns St * g_nel G)) (tr (scatter (tmat (g_nel G) St)))
-              (dense ident G Lreg Lsing (full_space (sp_ns St) ct) (full_space nsr cr)) r (nsr * f + j)).
+    (f < g_nel G)%nat -> (j < nsr)%nat ->
+    req (dense ident G Lreg Lsing St (full_space nsr cr) r (nsr * f + j)%nat)
+        (mmul (seq 0 (sp_ns St * g_nel G)%nat) (tr (scatter (tmat (g_nel G) St)))
+              (dense ident G Lreg Lsing (full_space (sp_ns St) ct) (full_space nsr cr)) r (nsr * f + j)%nat).
 Proof. exact @congruence_test_side. Qed.
 Print Assumptions C04_test_trial_independent.
